@@ -54,8 +54,10 @@ S8 = LazyStruct("a"/S0, "b"/Byte)
 S9 = LazyArray(2, S0)
 S10 = Struct("h"/S0, "t"/OneOf(Byte, [1, 7, 255]), "z"/Array(1, S1))
 S11 = Select(Prefixed(Byte, S0), S0)
+S12 = Prefixed(Byte, Struct("a"/Byte, "b"/Byte, "c"/S0))
+S13 = Struct("p"/S12, "q"/S12, "t"/Byte)
 '''
-POOL_NAMES = ['S%d' % i for i in range(12)]
+POOL_NAMES = ['S%d' % i for i in range(14)]
 
 
 def namespace():
